@@ -63,6 +63,15 @@ def run(prop, tier, repo=None, procs=16):
                 tot["per_kind"][f] = tot["per_kind"].get(f, 0) + k
         tot.update(config=c, tlc=stats, vectors=len(lines))
         outcomes.append(tot)
+        # internal assertions switched on (a third of the vectors, first class variant)
+        sub = lines[core.seed() % 3::3]
+        with core.pool(resolver_replay.worker_init, (repo, True), procs) as p:
+            size = max(50, min(4000, len(sub) // (procs * 4) + 1))
+            parts = p.map(resolver_replay.replay_chunk, [(ch, c["variants"][:1]) for ch in core.chunks(sub, size)])
+        tot2 = {"n": sum(r["n"] for r in parts), "same": sum(r["same"] for r in parts), "attention": [a for r in parts for a in r["attention"]],
+                "per_kind": {"with ANYTREE_ASSERTIONS=1": sum(r["n"] for r in parts)}, "dropped": 0, "skipped": 0, "lockstep_diff": []}
+        tot2.update(config=c, tlc=stats, vectors=len(sub))
+        outcomes.append(tot2)
     _judge(outcomes)
     _memo[key] = outcomes
     return outcomes
